@@ -47,6 +47,7 @@ class Report:
         self.exceptions_applied: list[str] = []
         self.notes: list[str] = []
         self._seen: set[str] = set()
+        self._unmet: list[str] = []
         self.only_key: str | None = None
 
     # ---- recording
@@ -86,19 +87,18 @@ class Report:
         return cond
 
     def floor(self, rule: str, what: str, found: int, minimum: int) -> None:
+        """Minimum number of instances a rule must have found.  Evaluated when the run
+        finishes: an unmet floor is an ANALYSIS-ERROR (the analysis lost its subject) unless a
+        rule already reported a violation on the changed code."""
         self.count(f"floor:{rule}:{what}", found)
-        if found < minimum and any(o.status == "violated" for o in self.obligations):
-            # the subject changed shape AND a rule already fired on it: report that, not an analysis error
-            self.notes.append(f"floor {rule}/{what} not met ({found} < {minimum}) after violations were recorded")
-            return
         if found < minimum:
-            raise AnalysisError(
-                f"{rule}: found {found} {what}, expected at least {minimum} - "
-                "the analysis lost its subject"
-            )
+            self._unmet.append(f"{rule}: found {found} {what}, expected at least {minimum}")
 
     # ---- finishing
     def finish(self) -> int:
+        if self._unmet and not any(o.status == "violated" for o in self.obligations):
+            raise AnalysisError("; ".join(self._unmet) + " - the analysis lost its subject")
+        self.notes += [f"floor not met after violations were recorded: {u}" for u in self._unmet]
         known = _load_known()
         listed = {
             (k["property"], k["key"]): k for k in known.get("findings", [])
